@@ -126,6 +126,8 @@ def standard_main(pid, tier, level, theorems, imports, build_streams, known_matc
     res = Result(pid, tier, level)
     res.cov["rule"] = rule
     res.assumptions = list(assumptions)
+    if level == "other":
+        res.cov["explanation"] = ("partial proof + verified per-input decision: " + rule + " | not proved for all inputs: " + "; ".join(assumptions))
     try:
         broken, info = prepare(res, theorems, imports)
         rng = random.Random(seed() * 1000003 + int(pid[1:]))
